@@ -167,6 +167,8 @@ func (propC10) Gen(seed uint64, tier string, idx int) any {
 					ops = append(ops, genRowPipelineOp(r))
 				} else if r.Pct(8) {
 					ops = append(ops, genAnimEncOp(r))
+				} else if r.Pct(6) {
+					ops = append(ops, genHostileOp(r))
 				} else {
 					ops = append(ops, GenStillOp(r, 1, 40, false))
 				}
@@ -244,6 +246,9 @@ func codecOf(op Op) string {
 	if op.Kind == "animenc" {
 		return "anim"
 	}
+	if op.Kind == "hostile" {
+		return "hostile"
+	}
 	if op.Opt.Lossless {
 		return "lossless"
 	}
@@ -264,7 +269,7 @@ func (propC10) Execute(pp any, x *X) *Violation {
 		inputs[c] = make([][]byte, len(ops))
 		for i, op := range ops {
 			if needsInput(op) {
-				inputs[c][i] = FileFor(op.Img, op.Opt)
+				inputs[c][i] = InputFor(op)
 			}
 		}
 	}
